@@ -232,7 +232,7 @@ def run(ctx):
         live = [c[1] for c in ctx.replay['cases'] if c[0] == 'live']
     else:
         strings = gen_strings(ctx, 12000 if ctx.quick() else 80000)
-        live = gen_live(ctx, 40 if ctx.quick() else 150, 600 if ctx.quick() else 4000)
+        live = gen_live(ctx, 40 if ctx.quick() else 80, 600 if ctx.quick() else 1500)
 
     # ---------------------------------------------------------------- (a) the parser
     n_bad = 0
